@@ -174,7 +174,7 @@ theorem lenSum_eq_closedLens (l : List Seg) : lenSum l = (closedLens l).sum := b
   | nil => rfl
   | cons s rest ih =>
     cases hs : s.len with
-    | none => simp [lenSum, closedLens, hs, List.filterMap_cons] at ih ⊢; exact ih
-    | some x => simp [lenSum, closedLens, hs, List.filterMap_cons] at ih ⊢; rw [ih]
+    | none => simp [lenSum, closedLens, hs] at ih ⊢; exact ih
+    | some x => simp [lenSum, closedLens, hs] at ih ⊢; rw [ih]
 
 end ScVerif.C18
